@@ -302,14 +302,15 @@ def gen_dlio_script(rng, stats):
     return s
 
 
-def c20_script(gen):
-    """a scenario generator of checks/C20.py, minus the operation the Fortran side cannot even link (cg_state_size_f)"""
+def c20_script(gen_name):
+    """a scenario generator of checks/C20.py (looked up at call time: C20.py may import this module), minus the operation
+    the Fortran side cannot even link (cg_state_size_f)"""
     def f(rng, stats):
-        return [l for l in gen(rng, stats) if l.split()[0] != "state_size"]
+        return [l for l in getattr(C20, gen_name)(rng, stats) if l.split()[0] != "state_size"]
     return f
 
 
-GENERATORS = [("mll", c20_script(C20.gen_mll_script)), ("cgio", c20_script(C20.gen_cgio_script)),
+GENERATORS = [("mll", c20_script("gen_mll_script")), ("cgio", c20_script("gen_cgio_script")),
               ("modproc", gen_modproc_script), ("dlio", gen_dlio_script)]
 
 
